@@ -21,7 +21,12 @@ MANIFEST = dict(
          "instead of a partial response while no response head has been sent, a "
          "passed connect/read/write deadline makes the visit release socket and proc. PROVED ONLY UNDER A "
          "HYPOTHESIS: the per-host / per-proc figures mod_status reports equal the in-flight counts if no two "
-         "hosts share a label (witness theorem: false for unlabeled hosts). TESTED ONLY (independent oracle on "
+         "hosts share a label (witness theorem: false for unlabeled hosts). PROVED ABOUT THE KEY BUILDER "
+         "(gw_status_get_counter modelled byte for byte, all host ids / proc ids / tags): for host ids without a '.' "
+         "the key gw.backend.<id>[.<n>]<tag> determines host id, proc and tag, and the plugin_stats entry (array.c "
+         "compares keys ignoring ASCII letter case) determines proc, tag and the host id up to letter case; "
+         "proved aliases outside that: ids differing only in case share every entry, a dotted id collides "
+         "(host 'a.1' and proc 1 of host 'a' share .load). TESTED ONLY (independent oracle on "
          "the real gw_backend.c after every event): 5xx on every request finished without a response; no "
          "request left waiting past a configured timeout after a tick; 503 / hostless retry only when the "
          "oracle's own availability view has no live proc; connect-timeout takes the backend out of rotation; "
@@ -31,7 +36,10 @@ MANIFEST = dict(
          "correspondence after every event (struct counters, the plugin_stats entries looked up by the same "
          "text key lighttpd uses, proc states, disabled_until, per-request link/state/retry count/timestamps/"
          "number of connect() calls counted in the connect hook, host->hctxs order, which backend each connect() "
-         "dialled, cur_fds, real descriptor leak check); connect()/socket()/SO_ERROR/write callback/create_env/"
+         "dialled, cur_fds, real descriptor leak check; for the key builder: the key of the plugin_stats entry the "
+         "real gw_status_get_counter returns and pointer equality of two look-ups); the world model's numeric host "
+         "label is not formally linked to the modelled key (the key theorems state what it abstracts); the 288-byte "
+         "key buffer is not modelled; connect()/socket()/SO_ERROR/write callback/create_env/"
          "http_response_read() answers are scripted inputs. NOT covered: liveness (that the trigger visits "
          "every waiting request is not proved; timeouts configured 0 = off wait forever by design); 'retried on "
          "another backend' holds for connect failures only (after accept-then-reset the same proc may be chosen "
@@ -720,6 +728,111 @@ HAND_ANON = [
 ]
 
 
+# --------------------------------------------------------------------------
+# gw_status_get_counter(): the statistics key  (model: Model/GwStat.lean, theorems c11_stat_key_*)
+KEY_TAGS = [b".load", b".connected", b".died", b".overloaded", b".disabled"]
+
+
+def _hx(b):
+    return b.hex() if b else "-"
+
+
+def key_line(a, b):
+    return "gwk " + " ".join("%s %s %s" % (_hx(i), "-" if p is None else str(p), _hx(t)) for i, p, t in (a, b))
+
+
+def key_parse(line):
+    t = line.split(" ")
+    un = lambda x: b"" if x == "-" else bytes.fromhex(x)
+    return [(un(t[k]), None if t[k + 1] == "-" else int(t[k + 1]), un(t[k + 2])) for k in (1, 4)]
+
+
+def own_key(i, p, t):
+    return b"gw.backend." + i + (b"" if p is None else b"." + str(p).encode()) + t
+
+
+def _fold(b):
+    return bytes(c | 0x20 if 65 <= c <= 90 else c for c in b)
+
+
+def key_oracle(line, out):
+    """independent statement: each counter lives under "gw.backend.<id>[.<n>]<tag>" (an entry of plugin_stats is
+    identified by its key up to ASCII letter case); for host ids without a '.' and the tags gw_backend.c uses,
+    two counters are one entry iff procs are equal and ids and tags are equal up to letter case"""
+    a, b = key_parse(line)
+    f = out.split(" ")
+    if len(f) != 3:
+        return "statistics key: no answer (%s)" % out[:40]
+    ka, kb = (b"" if x == "-" else bytes.fromhex(x) for x in f[:2])
+    if ka != _fold(own_key(*a)) or kb != _fold(own_key(*b)):
+        return "statistics key is not gw.backend.<id>[.<proc>]<tag>"
+    same = f[2] == "1"
+    fa, fb = (_fold(a[0]), a[1], _fold(a[2])), (_fold(b[0]), b[1], _fold(b[2]))
+    if fa == fb and not same:
+        return "the same counter looked up twice gives two statistics entries"
+    if fa != fb and same and b"." not in a[0] and b"." not in b[0] and a[2] in KEY_TAGS and b[2] in KEY_TAGS:
+        return "two different counters of dot-free host ids share one statistics entry"
+    return None
+
+
+def key_classify(line, out):
+    a, b = key_parse(line)
+    f = out.split(" ")
+    dotted = b"." in a[0] or b"." in b[0]
+    return "key/%s/%s/%s/%s%s/%s" % ("dotted-id" if dotted else "plain-id", "same-triple" if a == b else
+                                     "case-only" if (_fold(a[0]), a[1], _fold(a[2])) == (_fold(b[0]), b[1], _fold(b[2])) else "diff",
+                                     "one-entry" if f[-1] == "1" else "two-entries",
+                                     "h" if a[1] is None else "p", "h" if b[1] is None else "p",
+                                     "tags" if a[2] in KEY_TAGS and b[2] in KEY_TAGS else "other-tag")
+
+
+def gen_keys(rng, n):
+    ids = [b"", b"a", b"A", b"a1", b"1", b"h0"]
+    procs = [None, 0, 1, 10]
+    tg = [b".load", b".died", b".disabled"]
+    trip = [(i, p, t) for i in ids for p in procs for t in tg]
+    lines = [key_line(a, b) for a in trip for b in trip]               # exhaustive small scope: 60 x 60
+    # dotted host ids: outside the theorem's hypothesis; model and code must still agree (aliases expected)
+    dotted = [b"a.1", b"a.1.load", b".", b"a.", b".1", b"h0.10", b"a.1.1"]
+    lines += [key_line(a, b) for a in [(i, p, b".load") for i in dotted + [b"a"] for p in (None, 1, 10)]
+              for b in [(i, p, b".load") for i in dotted + [b"a", b"a.1"] for p in (None, 1)]]
+    alpha = b"ahAH01-_"
+    for _ in range(n):
+        def one():
+            k = rng.random()
+            if k < 0.6:
+                i = bytes(rng.choice(alpha) for _ in range(rng.randint(0, 4)))
+            elif k < 0.8:
+                i = bytes(rng.choice(alpha + b"..") for _ in range(rng.randint(0, 6)))
+            else:
+                i = bytes(rng.randint(1, 255) for _ in range(rng.randint(0, 40)))
+            p = rng.choice([None, None, 0, 1, 2, 9, 10, 11, 99, 100, 101, 65535, 4294967295, rng.randint(0, 2 ** 32 - 1)])
+            t = rng.choice(KEY_TAGS) if rng.random() < 0.85 else bytes(rng.choice(b".0a1l") for _ in range(rng.randint(0, 5)))
+            return (i, p, t)
+        a = one()
+        r = rng.random()
+        if r < 0.25:
+            b = a
+        elif r < 0.6:                         # near miss: move bytes between id, proc id and tag
+            i, p, t = a
+            c = rng.randint(0, 3)
+            if c == 0 and p is not None:
+                b = (i + str(p).encode()[:1], int(str(p)[1:] or 0), t)
+            elif c == 1 and p is not None:
+                b = (i + b"." + str(p).encode(), None, t)
+            elif c == 2 and i:
+                b = (i[:-1], p, t) if rng.random() < 0.5 else (i.swapcase(), p, t)
+            else:
+                b = (i, None if p is not None else 1, t)
+        else:
+            b = one()
+        lines.append(key_line(a, b))
+    # malformed: bad hex, proc id out of uint32 range, wrong arity
+    lines += ["gwk 6 - 2e6c6f6164 61 - 2e6c6f6164", "gwk 61 4294967296 2e6c6f6164 61 1 2e6c6f6164",
+              "gwk 61 x 2e6c6f6164 61 1 2e6c6f6164", "gwk 61 1 2e6c6f6164", "gwk zz - 2e6c6f6164 61 1 2e6c6f6164"]
+    return lines
+
+
 def run(ctx):
     exe, err = C.build_harness("h_gw")
     if exe is None:
@@ -742,6 +855,18 @@ def run(ctx):
             for o in t[5:]:
                 ctx.dist["op:" + o[0]] += 1
         ctx.differential(name, [exe], "gw", lines, oracle, classify)
+    klines = gen_keys(rng, 4000 if q else 40000)
+    for l in klines:
+        t = l.split(" ")
+        if len(t) == 7:
+            ctx.dist["key:id-" + ("dotted" if "2e" in [t[1][i:i + 2] for i in range(0, len(t[1]), 2)] else "plain")] += 1
+            ctx.dist["key:proc-" + ("none" if t[2] == "-" else "some")] += 1
+            ctx.dist["key:pair-" + ("equal" if t[1:4] == t[4:7] else "different")] += 1
+        else:
+            ctx.dist["key:malformed"] += 1
+    ctx.differential("gw(statistics key of gw_status_get_counter: pairs of (host id, proc id, tag))", [exe], "gw",
+                     klines, lambda l, o: None if o == "bad-op" else key_oracle(l, o),
+                     lambda l, o: "key/bad-op" if o == "bad-op" else key_classify(l, o))
     want = set((b, nh, j) for b in range(4) for nh in (2, 3) for j in range(nh))
     ctx.notes.append("one-alive stream: %d of %d (balance, pool size, survivor position) states observed in the "
                      "implementation%s" % (len(ONE_SEEN & want), len(want),
@@ -775,7 +900,10 @@ def replay_line(ctx, rep):
             if x != y:
                 print("first difference at step %d:\n  impl : %s\n  model: %s" % (i, x, y))
                 break
-    v = oracle_full(rep["input"], o[0]) if o else "crash"
+    if rep["input"].startswith("gwk "):
+        v = (None if o[0] == "bad-op" else key_oracle(rep["input"], o[0])) if o else "crash"
+    else:
+        v = oracle_full(rep["input"], o[0]) if o else "crash"
     print("oracle:", v)
     if v or (o != m):
         print("VIOLATION property=%s replay=%s" % (ctx.pid, "(replayed)"))
